@@ -1,0 +1,11 @@
+//go:build verif
+
+// Contracts for package mvt, read by the VC generator in /verif (govc). Comments only.
+
+package mvt
+
+// isPowerOfTwo(n) <==> n == 0 or n == 2^k for some k in 0..31 (bit-vector proof over all 2^32 values)
+//@ func isPowerOfTwo(n)
+//@   mode bv
+//@   pure
+//@   ensures result <==> (n == 0 || (exists k uint32 :: k < 32 && n == (1 << k)))
